@@ -63,9 +63,10 @@ type authHoney struct {
 	authCalls  []string          // X-Honeycomb-Team of every /1/auth request
 	keyIDs     map[string]string // key -> id returned by /1/auth
 	decodeErrs []string
-	other      []string     // any other request (method + path)
-	discard    bool         // do not decode batches
-	inflight   atomic.Int64 // requests being served right now
+	other      []string       // any other request (method + path)
+	discard    bool           // do not decode batches
+	counts     map[string]int // discard mode: events announced per dataset
+	inflight   atomic.Int64   // requests being served right now
 	// authScript, when set, decides how /1/auth treats a key: "" = normal answer,
 	// "401", "500", "garbage" (200 with an undecodable body), "hangup" (connection
 	// closed without an answer), "slow" (normal answer after 4 s).
@@ -137,13 +138,57 @@ func (h *authHoney) handleAuth(w http.ResponseWriter, r *http.Request) {
 
 var authZstdDec, _ = zstd.NewReader(nil, zstd.WithDecoderConcurrency(1))
 
+var authZstdDecBounded, _ = zstd.NewReader(nil, zstd.WithDecoderConcurrency(1), zstd.WithDecoderMaxMemory(64<<20))
+
+// authBatchCount reads only the msgpack array header of a (possibly zstd
+// compressed) batch body; 0 when it is not one. Counts are capped.
+func authBatchCount(body []byte, enc string) int {
+	if enc == "zstd" {
+		dec, err := authZstdDecBounded.DecodeAll(body, nil)
+		if err != nil {
+			return 0
+		}
+		body = dec
+	}
+	if len(body) == 0 {
+		return 0
+	}
+	n := 0
+	switch c := body[0]; {
+	case c >= 0x90 && c <= 0x9f:
+		n = int(c & 0x0f)
+	case c == 0xdc && len(body) >= 3:
+		n = int(body[1])<<8 | int(body[2])
+	case c == 0xdd && len(body) >= 5:
+		n = int(body[1])<<24 | int(body[2])<<16 | int(body[3])<<8 | int(body[4])
+	}
+	if n < 0 || n > 100000 {
+		return 0
+	}
+	return n
+}
+
 func (h *authHoney) handleBatch(w http.ResponseWriter, r *http.Request) {
 	if h.discard {
 		// C28: whatever refinery forwards or proxies here is hostile by design;
 		// the fake upstream must not interpret it
+		// ... except for the number of events a batch announces (array header
+		// only, nothing is allocated from it): needed to answer one status per
+		// event and to account per dataset.
+		body, _ := io.ReadAll(io.LimitReader(r.Body, 8<<20))
 		io.Copy(io.Discard, r.Body)
+		n := authBatchCount(body, r.Header.Get("Content-Encoding"))
+		ds := strings.TrimPrefix(r.URL.Path, "/1/batch/")
+		h.mu.Lock()
+		if h.counts == nil {
+			h.counts = map[string]int{}
+		}
+		if len(h.counts) < 10000 {
+			h.counts[ds] += n
+		}
+		h.mu.Unlock()
 		w.Header().Set("Content-Type", "application/json")
-		w.Write([]byte("[]"))
+		w.Write([]byte("[" + strings.TrimSuffix(strings.Repeat(`{"status":202},`, n), ",") + "]"))
 		return
 	}
 	body, _ := io.ReadAll(r.Body)
@@ -693,6 +738,25 @@ func (s *authSUT) stop() {
 	case <-done:
 	case <-time.After(90 * time.Second):
 	}
+	s.transport.CloseIdleConnections()
+	s.upTransp.CloseIdleConnections()
+	s.Honey.Close()
+	os.RemoveAll(s.dir)
+}
+
+// stopComponents stops routers and upstream transmission (what shutdown does)
+// and returns when they have returned. The caller then calls finish().
+func (s *authSUT) stopComponents() {
+	_ = s.Router.Stop()
+	if s.PeerRtr != nil {
+		_ = s.PeerRtr.Stop()
+	}
+	_ = s.Upstream.Stop()
+}
+
+// finish releases what is left after stopComponents returned.
+func (s *authSUT) finish() {
+	s.stopped = true
 	s.transport.CloseIdleConnections()
 	s.upTransp.CloseIdleConnections()
 	s.Honey.Close()
